@@ -91,15 +91,18 @@ Sec(r, nm) == r.secs[CHOOSE i \in 1..Len(r.secs) : r.secs[i].name = nm]
 Judgeable(r) == {"", "HEADER", "TEXT"} \subseteq Names(r) /\ r.rfc_a.ok
 
 (* how BODY[HEADER] o BODY[TEXT] misses BODY[] (a diagnosis, not a verdict) *)
-HTDiagnosis(full, hdr, txt) ==
-    IF full.big \/ hdr.big \/ txt.big THEN "large"
-    ELSE IF hdr.b = full.b /\ txt.b = <<CR, LF>> THEN "empty-text-sent-as-CRLF"
-    ELSE IF IsPrefix(hdr.b, full.b) THEN "text-is-not-the-rest-of-body"
+HTDiagnosis(full, hdr, txt, harnessDiag) ==
+    IF full.big \/ hdr.big \/ txt.big THEN "L:" \o harnessDiag
+    ELSE IF hdr.b = full.b /\ txt.b = <<CR, LF>> THEN "empty-text-as-CRLF"
+    ELSE IF IsPrefix(hdr.b, full.b) THEN "text-not-the-rest"
     ELSE IF \E k \in 1..(Len(full.b) - Len(hdr.b)) : SubSeq(full.b, k + 1, k + Len(hdr.b)) = hdr.b
-         THEN "header-taken-from-inside-the-body"
-    ELSE "header-is-not-the-start-of-body"
+         THEN "header-from-inside"
+    ELSE "header-not-the-start"
 
-(* The verdict: the set of <<clause, where>> that record r violates.  src is *)
+(* The verdict: the set of <<clause, where>> that record r violates (where:  *)
+(* the index of the section in r.secs, or of the source's section for COPY, *)
+(* as a string; a diagnosis; the way of storing; kept short because TLC      *)
+(* wraps printed tuples at 80 columns).  src is                              *)
 (* the record of the message r was copied from (only read when r.how="copy").*)
 Bad(r, src) ==
     LET full == Sec(r, "").a
@@ -110,7 +113,7 @@ Bad(r, src) ==
     (IF r.rfc_a.size # full.n THEN {<<"C16.SizeIsOctetCount", "RFC822.SIZE">>} ELSE {})
     \cup
     (IF (IF full.big \/ hdr.big \/ txt.big THEN Same(r.cat, full) ELSE hdr.b \o txt.b = full.b)
-     THEN {} ELSE {<<"C16.HeaderThenTextIsBody", HTDiagnosis(full, hdr, txt)>>})
+     THEN {} ELSE {<<"C16.HeaderThenTextIsBody", HTDiagnosis(full, hdr, txt, r.catdiag)>>})
     \cup
     (IF Same(r.rfc_a.full, full) THEN {} ELSE {<<"C16.Rfc822SameAsBody", "RFC822">>})
     \cup
@@ -118,17 +121,17 @@ Bad(r, src) ==
     \cup
     (IF Same(r.rfc_a.text, txt) THEN {} ELSE {<<"C16.Rfc822SameAsBody", "RFC822.TEXT">>})
     \cup
-    {<<"C16.PartialIsSlice", r.secs[i].name>> : i \in
+    {<<"C16.PartialIsSlice", ToString(i)>> : i \in
         {i \in S : \E k \in 1..Len(r.secs[i].parts) :
             LET p == r.secs[i].parts[k] IN
             /\ p.present
             /\ ~(IF r.secs[i].a.big THEN Same(p.got, p.ref)
                  ELSE ~p.got.big /\ p.got.b = Slice(r.secs[i].a.b, p.o, p.c))}}
     \cup
-    {<<"C16.LinesEndInCRLF", r.secs[i].name>> : i \in
+    {<<"C16.LinesEndInCRLF", ToString(i)>> : i \in
         {i \in S : ~r.secs[i].a.big /\ ~AllLinesCRLF(r.secs[i].a.b)}}
     \cup
-    {<<"C16.RepeatIsIdentical", r.secs[i].name>> : i \in
+    {<<"C16.RepeatIsIdentical", ToString(i)>> : i \in
         {i \in S : ~(r.secs[i].twice /\ Same(r.secs[i].a, r.secs[i].b))}}
     \cup
     (IF /\ r.rfc_b.ok /\ r.rfc_b.size = r.rfc_a.size /\ Same(r.rfc_b.full, r.rfc_a.full)
@@ -137,8 +140,9 @@ Bad(r, src) ==
     \cup
     (IF r.how = "copy"
      THEN (IF src.rfc_a.size = r.rfc_a.size THEN {} ELSE {<<"C16.CopyIsIdentical", "RFC822.SIZE">>})
-          \cup {<<"C16.CopyIsIdentical", nm>> : nm \in
-                    {nm \in Names(src) : nm \notin Names(r) \/ ~Same(Sec(src, nm).a, Sec(r, nm).a)}}
+          \cup {<<"C16.CopyIsIdentical", ToString(i)>> : i \in
+                    {i \in 1..Len(src.secs) : LET nm == src.secs[i].name IN
+                        nm \notin Names(r) \/ ~Same(src.secs[i].a, Sec(r, nm).a)}}
      ELSE {})
     \cup
     (IF r.how \in {"append", "deliver"} /\ r.wellformed /\ ~SameFields(r.sentFields, r.fields)
@@ -172,7 +176,7 @@ RefRecord(s, how, R) ==
      sentLeaves |-> <<[ct |-> "text/plain", body |-> Item(ToCRLF(BodyOf(DeCR(s))))]>>,
      leaves |-> <<[ct |-> "text/plain", body |-> Item(RefText(s))]>>,
      secs |-> <<RefSec("", RefFull(s), R), RefSec("HEADER", RefHeader(s), R), RefSec("TEXT", RefText(s), R)>>,
-     rfc_a |-> RefRfc(s), rfc_b |-> RefRfc(s), cat |-> Item(<<>>)]
+     rfc_a |-> RefRfc(s), rfc_b |-> RefRfc(s), cat |-> Item(<<>>), catdiag |-> "-"]
 
 Clauses(V) == {v[1] : v \in V}
 =============================================================================
